@@ -3,6 +3,7 @@ proof shapes; the harness interprets them with SHA-256d and compares with the re
 records real commitments of edited lists / real proofs for TraceMerkle (code -> spec)."""
 import os
 import random
+import hashlib
 
 from harness import tlc, sk, tracecheck, indep
 from harness.common import Check, seed, machinery_failure
@@ -152,6 +153,31 @@ def run(pid, tier, replay=None):
         ev.append({"k": "proof", "n": n, "i": i + 1, "leaf_present": has_leaf(pr, leaves[i], i),
                    "reproduces": pr.hash() == M.get_merkle_root(list(leaves)),
                    "shape_matches": match_proof(pr, proofs[(n, i + 1)], leaves, i + 1) if (n, i + 1) in proofs else True})
+    # long lists: "for every list" has no size limit (the header commitment of a candidate is computed from whatever is pending); lengths
+    # around powers of two up to 2^18 and beyond, edits at the front and at the end, a few proofs
+    import time as _t
+    t_big = _t.time()
+    sizes = [1023, 1024, 1025, 65536, 131073, 262143, 262144, 262145, 264144] if quick else \
+        [1023, 1024, 1025, 4095, 4097, 65535, 65536, 65537, 131072, 131073, 262143, 262144, 262145, 264144, 524288, 524289, 1048577]
+    nbig = 0
+    for n_ in sizes:
+        base = [hashlib.sha256(b"L%d" % j).digest() for j in range(n_)]
+        r0 = M.get_merkle_root(list(base))
+        if r0 != indep.merkle_root(list(base)):
+            chk.model_drift("commitment of a list of %d entries differs from the independent computation" % n_)
+        other = hashlib.sha256(b"other").digest()
+        for kind, lst in (("substitute_first", [other] + base[1:]), ("swap_first_two", [base[1], base[0]] + base[2:]), ("remove_first", base[1:]),
+                          ("substitute_last", base[:-1] + [other]), ("substitute_middle", base[:n_ // 2] + [other] + base[n_ // 2 + 1:])):
+            ev.append({"k": "bigpair", "n": n_, "edit": kind, "same_root": M.get_merkle_root(lst) == r0})
+            chk.case(("bigedit", n_, kind), nontrivial=True)
+            nbig += 1
+        if n_ in (1025, 262145) or (not quick and n_ <= 262145):
+            tree = M.get_merkle_tree(list(base))
+            for i_ in (0, n_ // 2, n_ - 1):
+                pr = M.get_proof(tree, i_)
+                ev.append({"k": "bigproof", "n": n_, "i": i_ + 1, "leaf_present": has_leaf(pr, base[i_], i_), "reproduces": pr.hash() == r0})
+                nbig += 1
+    chk.extra["long_lists"] = {"sizes": sizes, "events": nbig, "wall_s": round(_t.time() - t_big, 1)}
     chk.sample(ev[0])
     verdicts, r2 = tracecheck.run("TraceMerkle", ev, consts, ids=[1], workers=1)
     chk.states += r2.distinct
@@ -168,7 +194,6 @@ def run(pid, tier, replay=None):
     # root, tree and a proof of one list and is stopped before every line of merkletree.py; at each stop thread B computes another list's
     # commitment; A's results must be what A gets alone.
     from harness import preempt
-    import hashlib
     mt = M
     la = [hashlib.sha256(b"a%d" % i_).digest() for i_ in range(5)]
     lb = [hashlib.sha256(b"b%d" % i_).digest() for i_ in range(4)]
